@@ -123,7 +123,7 @@ pub async fn make_request(state: &Arc<GlobalState>, r: &Req, client_sends: &[u8]
 }
 
 thread_local! {
-    static RT: tokio::runtime::Runtime = tokio::runtime::Builder::new_current_thread().enable_time().start_paused(true).build().unwrap();
+    static RT: tokio::runtime::Runtime = tokio::runtime::Builder::new_current_thread().enable_all().start_paused(true).build().unwrap();
 }
 
 /// run a future to completion on this thread's paused-clock runtime (in-memory streams only, so it never waits for I/O)
